@@ -568,6 +568,60 @@ def _cross_strategy(tier):
         "hashseed": st.sampled_from([1, 12345])})
 
 
+
+# --------------------------------------------------------------------------
+# large_lists: more than a thousand hyperedges / nodes (a digest that is fed in chunks must still
+# see every record)
+
+
+@st.composite
+def _large_strategy(draw, tier=None):
+    return {"n_edges": draw(st.sampled_from([1025, 1030, 1100, 2050])),
+            "which": draw(st.sampled_from(["weight", "metadata", "extra_node", "remove_edge"])),
+            "pick": draw(st.integers(0, 40)), "weighted": draw(st.booleans()),
+            "temporal": draw(st.booleans())}
+
+
+def check_large(case, ctx):
+    from itertools import combinations
+    from hypergraphx import Hypergraph, TemporalHypergraph
+    m = case["n_edges"]
+    pairs = list(combinations(range(60), 2))[:m]          # 1770 pairs available
+    weighted = case["weighted"] or case["which"] == "weight"
+
+    def build(edit):
+        if case["temporal"]:
+            h = TemporalHypergraph(weighted=weighted)
+            add = lambda e, **kw: h.add_edge(e, 3, **kw)
+        else:
+            h = Hypergraph(weighted=weighted)
+            add = lambda e, **kw: h.add_edge(e, **kw)
+        target = len(pairs) - 1 - case["pick"]            # a record in the tail of any ordering
+        for j, e in enumerate(pairs):
+            if edit and case["which"] == "remove_edge" and j == target:
+                continue
+            kw = {"weight": 2} if weighted else {}
+            if edit and j == target:
+                if case["which"] == "weight":
+                    kw["weight"] = 3
+                elif case["which"] == "metadata":
+                    kw["metadata"] = {"color": "red"}
+            add(e, **kw)
+        if edit and case["which"] == "extra_node":
+            h.add_node(5000 + case["pick"])
+        return h
+
+    a, a2, b = _hash()(build(False)), _hash()(build(False)), _hash()(build(True))
+    require(a == a2, lambda: "two equal %s objects with %d hyperedges hash differently"
+            % ("temporal" if case["temporal"] else "plain", m), key="large-equal")
+    require(a != b,
+            lambda: "hash_hypergraph is the same (%s) for two objects with %d hyperedges that "
+                    "differ by one edit (%s, record %d from the end)"
+            % (a[:12], m, case["which"], case["pick"]), key="large-different")
+    ctx.label("edit:" + case["which"], "hyperedges:%d" % m)
+    ctx.nontrivial(True)
+
+
 CLAUSES = [
     Clause("equal_histories." + name, _equal_strategy(name), check_equal,
            quick=300, thorough=2000,
@@ -585,6 +639,8 @@ CLAUSES = [
            rule="history with a removal that ends with hyperedges; the hash is taken (and the full "
                 "observation compared) after the constructor, inside and after the noise phase and "
                 "at the end"),
+    Clause("large_lists", _large_strategy, check_large, quick=6, thorough=12,
+           rule="more than 1024 hyperedges, one edit near the end of the record lists"),
     Clause("cross_process_stable", _cross_strategy, check_cross_process, quick=60, thorough=60,
            rule="one object of each container type, rebuilt by the same calls in a child interpreter "
                 "with another PYTHONHASHSEED; at least one of them has str labels and hyperedges"),
